@@ -331,6 +331,8 @@ class Emit:
             elif x[0] == "mcall" and (x[2] in ("push", "pop", "push_back", "pop_front") or x[2] in self.cfg.get("mutmethods", {})) \
                     and self.lhs_name(x[1]) is not None:
                 add(self.lhs_name(x[1]))
+            elif x[0] == "assign" and x[1][0] == "mcall" and x[1][2] in self.cfg.get("setters", {}) and self.lhs_name(x[1][1]) is not None:
+                add(self.lhs_name(x[1][1]))
             elif self.foreach_target(x) is not None:
                 add(self.foreach_target(x)[0])
             elif x[0] == "mcall" and x[2] in self.cfg.get("selfmut", {}) and x[1] == ("path", ["self"]):
@@ -453,6 +455,10 @@ class Emit:
                 return "(match %s with\n    | some %s => (%s)\n    | none => none)" % (
                     self.valbranch(s[2], w, lambda t: "(some %s)" % t), self.tup([self.pat(s[1])] + w), tailstr())
             return "let %s := %s;\n    %s" % (self.tup([self.pat(s[1])] + w), self.valbranch(s[2], w, lambda t: t), tailstr())
+        if s[0] == "let" and s[2][0] == "mcall" and s[2][2] in self.cfg.get("optlets", {}):
+            # `let x = recv.m();` where `m` unwraps inside (`unchecked_…`): the rest runs on `some`
+            return "(match %s with\n    | some %s => (%s)\n    | none => none)" % (
+                self.cfg["optlets"][s[2][2]].format(self.atom(s[2][1]), *[self.atom(a) for a in s[2][3]]), self.pat(s[1]), tailstr())
         if s[0] == "let" and self.cfg.get("unwrap_panics") and s[2][0] == "mcall" and s[2][2] in ("unwrap", "expect"):
             # `let pat = e.unwrap();` in a function whose panics are modelled as `none`: the rest runs on `some`
             inner = s[2][1]
@@ -1367,6 +1373,53 @@ KERNELS += [
          method={"into_iter": "{0}", "filter": "List.filter {1} {0}", "collect": "{0}", "is_some": "Option.isSome {0}"}),
 ]
 
+# ---- VisualSORT: `VisualMetric::optimize` whole (Kalman step, histories, the collect gate, the gallery) (C13, C12)
+V_STRUCT = {"VisualObservationAttributes": ("VOA α", {"bbox": "bbox", "visual_quality": "visual_quality", "own_area_percentage": "own_area_percentage"})}
+VOA = dict(group="OptimizeV", file="trackers/visual_sort/observation_attributes.rs", impl=r"impl VisualObservationAttributes \{", struct=V_STRUCT, Self="VisualObservationAttributes",
+           call={"Some": "some {0}"})
+VATTR = dict(group="OptimizeV", file="trackers/visual_sort/track_attributes.rs", impl=r"impl TrackAttributesKalmanPrediction for VisualAttributes \{",
+             fieldpath={"self.opts.position_weight": "self.position_weight", "self.opts.velocity_weight": "self.velocity_weight"})
+SOLVE_SIG = "(solveLower : {r c : Type} → [Fintype r] → [DecidableEq r] → Matrix r r α → Matrix r c α → Matrix r c α)"
+KERNELS += [
+    dict(VOA, name="voa_new", fn="new", sig="(q : α) (b : CBox α) : VOA α"),
+    dict(VOA, name="voa_with_own_area_percentage", fn="with_own_area_percentage", sig="(q : α) (b : CBox α) (own_area_percentage : α) : VOA α"),
+    dict(VOA, name="voa_unchecked_bbox_ref", fn="unchecked_bbox_ref", sig="(self : VOA α) : Option (CBox α)", method={"as_ref": "{0}", "unwrap": "{0}"}),
+    dict(VOA, name="voa_own_area_percentage_opt", fn="own_area_percentage_opt", sig="(self : VOA α) : Option α"),
+    dict(VOA, name="voa_visual_quality", fn="visual_quality", sig="(self : VOA α) : α"),
+    dict(VATTR, name="vattr_get_state", fn="get_state", sig="{F : Type} (self : VAttrs α F) : Option (KState α)"),
+    dict(VATTR, name="vattr_set_state", fn="set_state", sig="{F : Type} (self : VAttrs α F) (state : KState α) : VAttrs α F", imperative=True, result="self", recordvars=("self",),
+         call={"Some": "some {0}"}),
+    dict(VATTR, name="vattr_get_position_weight", fn="get_position_weight", sig="{F : Type} (self : VAttrs α F) : α"),
+    dict(VATTR, name="vattr_get_velocity_weight", fn="get_velocity_weight", sig="{F : Type} (self : VAttrs α F) : α"),
+    dict(group="OptimizeV", name="vmake_prediction", file="trackers/kalman_prediction.rs", impl=r"pub trait TrackAttributesKalmanPrediction \{", fn="make_prediction",
+         sig="{F : Type} " + SOLVE_SIG + " (dt : α) (self : VAttrs α F) (observation_bbox : CBox α) : Option (VAttrs α F × CBox α)",
+         imperative=True, unwrap_panics=True, retwrap="some (self, {0})", recordvars=("res",), field={"confidence": "conf"},
+         method={"get_state": "vattr_get_state {0}", "get_position_weight": "vattr_get_position_weight {0}", "get_velocity_weight": "vattr_get_velocity_weight {0}",
+                 "initiate": "box_initiate {0}.1 {0}.2 (toU {1})", "predict": "box_predict (box_motion_matrix dt) {0}.1 {0}.2 {1}",
+                 "update": "box_update solveLower box_update_matrix {0}.1 {1} (toU {2})"},
+         call={"Universal2DBoxKalmanFilter::new": "(({0}, {1}) : α × α)", "Universal2DBox::try_from": "kstate_to_box 10 {0}"},
+         selfmut={"set_state": ("self", "vattr_set_state self {0}")}),
+    dict(group="OptimizeV", name="visual_optimize", file="trackers/visual_sort/metric.rs", impl=r"impl ObservationMetric<VisualAttributes, VisualObservationAttributes> for VisualMetric \{", fn="optimize",
+         sig="{F : Type} " + SOLVE_SIG + " (dt : α) (cos sin : α → α) (positional_kind : PosMetric α)\n    (visual_minimal_area visual_minimal_quality_collect visual_minimal_own_area_percentage_collect : α)\n    (optimizeObservations : List (Option (VOA α) × Option F) → List (Option (VOA α) × Option F)) (is_merge : Bool)\n    (attrs : VAttrs α F) (observations : List (Option (VOA α) × Option F)) : Option (VAttrs α F × List (Option (VOA α) × Option F))",
+         imperative=True, unwrap_panics=True, result="some (attrs, observations)", recordvars=("attrs",),
+         fieldpath={"self.opts.positional_kind": "positional_kind", "self.opts.visual_minimal_quality_collect": "visual_minimal_quality_collect",
+                    "self.opts.visual_minimal_own_area_percentage_collect": "visual_minimal_own_area_percentage_collect"},
+         method={"attr": "{0}.1", "as_ref": "{0}", "feature": "{0}.2", "clone": "{0}", "visual_quality": "voa_visual_quality {0}", "own_area_percentage_opt": "voa_own_area_percentage_opt {0}",
+                 "feature_can_be_used": "v_feature_can_be_used visual_minimal_area (Option.map toU {1}) {2} {3} {4} {5}", "len": "List.length {0}",
+                 "iter": "{0}", "filter": "List.filter {1} {0}", "count": "List.length {0}", "is_some": "Option.isSome {0}"},
+         call={"Some": "some {0}", "VisualObservationAttributes::with_own_area_percentage": "voa_with_own_area_percentage {0} {1} {2}", "VisualObservationAttributes::new": "voa_new {0} {1}"},
+         path={"None": "none"},
+         pctor={"PositionalMetricType::Mahalanobis": "PosMetric.maha", "PositionalMetricType::IoU": "PosMetric.iou"},
+         optlets={"unchecked_bbox_ref": "voa_unchecked_bbox_ref {0}"},
+         effmethods={"make_prediction": "vmake_prediction solveLower dt {0} {1}"}, setters={"attr_mut": "({1}, {0}.2)", "feature_mut": "({0}.1, {1})"},
+         selfmut={"optimize_observations": (0, "optimizeObservations {0}")},
+         mutmethods={"gen_vertices": "cbox_gen_vertices cos sin {0}", "swap": "SimVerif.Gen.L.listSwap {0} {1} {2}",
+                     "update_history": "applyHistV {0} (SimVerif.Gen.L.visual_update_history {0}.history_length {0}.track_length {0}.observed_boxes {0}.predicted_boxes {0}.observed_features {1} {2} {3})"}),
+    dict(group="OptimizeV", name="visual_postprocess_distances", file="trackers/visual_sort/metric.rs", impl=r"impl ObservationMetric<VisualAttributes, VisualObservationAttributes> for VisualMetric \{",
+         fn="postprocess_distances", sig="{M : Type} (unfiltered : List (MOk M)) : List (MOk M)",
+         method={"into_iter": "{0}", "filter": "List.filter {1} {0}", "collect": "{0}", "is_some": "Option.isSome {0}"}),
+]
+
 # ---- the per-detection loop of `Sort::predict_with_scene`: apply the winners, one record per detection (C01)
 def pick_apply(stmts):
     """from `let mut res = Vec::default();` to the loop that fills it (the tail `res` is the value)"""
@@ -1736,15 +1789,35 @@ def dedupBy {α : Type} (same : α → α → Bool) : List α → List α
   | a :: rest => a :: dedupByAux same a rest
 """
 # group -> (file, configs, header, namespace)
-K_GROUPS = ["Radius", "Box", "Inter", "Dist", "Kalman", "SMetric", "VMetric", "Clip", "Feat", "Cache", "Optimize"]
+K_GROUPS = ["Radius", "Box", "Inter", "Dist", "Kalman", "SMetric", "VMetric", "Clip", "Feat", "Cache", "Optimize", "OptimizeV"]
 POSMETRIC = """/-- `PositionalMetricType` -/
 inductive PosMetric (α : Type) where
   | maha
   | iou (thr : α)
 """
-K_IMPORTS = {"Optimize": "import SimVerif.Gen.KCache\nimport SimVerif.Gen.KKalmanMat\nimport SimVerif.Gen.KSMetric\nimport SimVerif.Gen.LAttr\n", "Cache": "import SimVerif.Gen.KBox\nimport SimVerif.Gen.KInter\nimport SimVerif.Gen.KClip\n", "Feat": "import SimVerif.Model.Feature\n", "Clip": "import SimVerif.Gen.KInter\n", "Inter": "import SimVerif.Gen.KRadius\n", "Dist": "import SimVerif.Gen.KRadius\n",
+K_IMPORTS = {"Optimize": "import SimVerif.Gen.KCache\nimport SimVerif.Gen.KKalmanMat\nimport SimVerif.Gen.KSMetric\nimport SimVerif.Gen.LAttr\n",
+             "OptimizeV": "import SimVerif.Gen.KOptimize\nimport SimVerif.Gen.KVMetric\nimport SimVerif.Gen.LGallery\n", "Cache": "import SimVerif.Gen.KBox\nimport SimVerif.Gen.KInter\nimport SimVerif.Gen.KClip\n", "Feat": "import SimVerif.Model.Feature\n", "Clip": "import SimVerif.Gen.KInter\n", "Inter": "import SimVerif.Gen.KRadius\n", "Dist": "import SimVerif.Gen.KRadius\n",
              "SMetric": "import SimVerif.Gen.KInter\nimport SimVerif.Gen.KKalman\n",
              "VMetric": "import SimVerif.Gen.KSMetric\nimport SimVerif.Gen.KRadius\nimport SimVerif.Model.VisualMetric\n"}
+PRELUDE_OPTV = """/-- the fields of `VisualAttributes` the observation step reads or writes -/
+structure VAttrs (α F : Type) where
+  predicted_boxes : List (CBox α)
+  observed_boxes : List (CBox α)
+  observed_features : List (Option F)
+  track_length : Nat
+  visual_features_collected_count : Nat
+  state : Option (KState α)
+  position_weight : α
+  velocity_weight : α
+  history_length : Nat
+/-- `VisualObservationAttributes` -/
+structure VOA (α : Type) where
+  bbox : Option (CBox α)
+  visual_quality : α
+  own_area_percentage : Option α
+def applyHistV {F : Type} (a : VAttrs α F) (r : Nat × List (CBox α) × List (CBox α) × List (Option F)) : VAttrs α F :=
+  { a with track_length := r.1, observed_boxes := r.2.1, predicted_boxes := r.2.2.1, observed_features := r.2.2.2 }
+"""
 PRELUDE_OPT = """/-- `KalmanState<10>`: mean and covariance -/
 abbrev KState (α : Type) := Matrix (Fin 5 ⊕ Fin 5) (Fin 1) α × Matrix (Fin 5 ⊕ Fin 5) (Fin 5 ⊕ Fin 5) α
 /-- the fields of `SortAttributes` the observation step reads or writes (`opts` flattened; epoch, scene and custom id are not touched by it) -/
@@ -1766,7 +1839,7 @@ structure MOk (M : Type) where
   attribute_metric : Option M
   feature_distance : Option M
 """
-K_PRELUDE = {"Optimize": PRELUDE_OPT, "Cache": """/-- `Universal2DBox` with its private vertex cache -/
+K_PRELUDE = {"Optimize": PRELUDE_OPT, "OptimizeV": PRELUDE_OPTV, "Cache": """/-- `Universal2DBox` with its private vertex cache -/
 structure CBox (α : Type) where
   xc : α
   yc : α
